@@ -471,7 +471,7 @@ class ConcurrentBlocks(SubCheck):
             caches = [base] + [diskcache.Cache(path, timeout=0) for _ in range(n - 1)]
             return caches, caches
 
-        calls, sched = run_scheduled(env, case['progs'], case['schedule'], open_clients, do_op, 'C06', warm=lambda c: c._sql)
+        calls, sched = run_scheduled(env, case['progs'], case['schedule'], open_clients, do_op, 'C06', warm=lambda c: c._sql, final_ops=c05.FINAL_OPS[:4])
         if sched.limit_hit:
             return {'nontrivial': False, 'classes': ['step-limit']}
         mark_interleaved(calls, sched.trace)
